@@ -973,3 +973,86 @@ def run_use_registers(res, ast, rule="LIVE-OUTER"):
         except Missing:
             w_ = BC
         res.check(not probs, rule, f"{BC}|{fname}|use|{what}", w_, f"{fname}: " + "; ".join(sorted(set(probs))[:2]))
+
+
+def run_analysis_eval(res, ast, rule="GVN-INVALIDATE", wrule="WINDOW-BY-CONSTRUCTION"):
+    """Analysis::analyze evaluated (lib/receval.py) on blocks that contain one instruction of every kind: the facts the code generator relies on -
+    which cells a block may overwrite, whether it moves the pointer (also through a nested block), one sub-analysis per nested block in order,
+    and a window that contains every cell named.  Supersets are accepted (they only cost precision)."""
+    import receval
+    from receval import Rec, Variant, MapV
+    from rusteval import Env as _Env, ReturnEx as _Ret, Unanalysable as _Un, Reached as _Re, Tup as _Tup
+    try:
+        fn = ast.fn(BC, "analyze")["node"]
+    except Missing as m:
+        res.missing(rule, m)
+        return
+
+    class Ex:
+        def __init__(self, vs):
+            self.vs = vs
+
+    class AI(receval.RecInterp):
+        def method(self, recv, name, targs, args, node):
+            if isinstance(recv, Ex) and name == "variables":
+                return list(recv.vs)
+            return super().method(recv, name, targs, args, node)
+    ps = [p_["pat"]["name"] for p_ in fn["sig"]["inputs"] if p_["t"] == "Arg" and p_["pat"]["t"] == "PIdent"]
+
+    def run(blk):
+        it = AI(ast, BC, Rec())
+        env = _Env()
+        if len(ps) != 1:
+            raise _Un("analyze(block): unexpected parameters")
+        env.bind(ps[0], blk)
+        try:
+            return it.exec_block(fn["body"], env)
+        except _Ret as r_:
+            return r_.value
+    V = lambda n, **f: Variant("ir::Instr::" + n, f)
+    keys = lambda m: set(m.keys()) if isinstance(m, MapV) else set(m) if isinstance(m, list) else None
+    w = where(BC, fn, "Analysis::analyze")
+    scen = []
+    inner1 = Rec(insts=[V("Input", dst=12)], shift=0)
+    inner2 = Rec(insts=[V("Calc", calcs=[_Tup([20, Ex([])])])], shift=0)
+    scen.append(("one instruction of every kind", Rec(insts=[V("Input", dst=5), V("Output", src=-3), V("Calc", calcs=[_Tup([7, Ex([2, 9])])]),
+                                                             V("Loop", cond=4, block=inner1, once=False), V("If", cond=15, block=inner2)], shift=0),
+                 dict(writes={5, 7, 12, 20}, cells={5, -3, 7, 2, 9, 4, 12, 15, 20, 0}, shift=False, subs=[{12}, {20}])))
+    scen.append(("a nested loop that moves the pointer", Rec(insts=[V("Loop", cond=1, block=Rec(insts=[V("Output", src=2)], shift=3), once=False)], shift=0),
+                 dict(writes=set(), cells={0, 1}, shift=True, subs=[None], sub_shift=[True])))
+    scen.append(("a nested If that moves the pointer", Rec(insts=[V("Input", dst=6), V("If", cond=1, block=Rec(insts=[], shift=-1))], shift=0),
+                 dict(writes=set(), cells={0, 1, 6}, shift=True, subs=[None], sub_shift=[True])))
+    scen.append(("a write after a nested block that moves the pointer", Rec(insts=[V("If", cond=1, block=Rec(insts=[], shift=-1)), V("Input", dst=30), V("Calc", calcs=[_Tup([-8, Ex([40])])])], shift=0),
+                 dict(writes=set(), cells={0, 1, 30, -8, 40}, shift=True, subs=[None], sub_shift=[True])))
+    scen.append(("a block with a static shift", Rec(insts=[V("Input", dst=6)], shift=2), dict(writes=set(), cells={0, 6}, shift=True, subs=[])))
+    scen.append(("a loop known to run once", Rec(insts=[V("Loop", cond=3, block=Rec(insts=[V("Input", dst=8)], shift=0), once=True)], shift=0),
+                 dict(writes={8}, cells={0, 3, 8}, shift=False, subs=[{8}])))
+    for tag, blk, want in scen:
+        probs, wprobs = [], []
+        try:
+            a = run(blk)
+            if not isinstance(a, Rec) or any(k not in a for k in ("has_shift", "writes", "sub_anal", "min_accessed", "max_accessed")):
+                raise _Un(f"analyze returns {a!r}")
+            if a["has_shift"] is not want["shift"]:
+                probs.append(f"has_shift is {a['has_shift']}, " + ("the block moves the pointer" if want["shift"] else "nothing moves the pointer"))
+            wr = keys(a["writes"])
+            if not want["shift"] and not want["writes"] <= wr:
+                probs.append(f"cells {sorted(want['writes'] - wr)} may be overwritten by the block but are not in `writes`: their value numbers survive the block")
+            if len(a["sub_anal"]) != len(want["subs"]):
+                probs.append(f"{len(a['sub_anal'])} sub-analyses for {len(want['subs'])} nested blocks (emit_block indexes them by position)")
+            else:
+                for i_, (sa, ws) in enumerate(zip(a["sub_anal"], want["subs"])):
+                    if ws is not None and not ws <= keys(sa["writes"]):
+                        probs.append(f"sub-analysis {i_} lacks the written cells {sorted(ws - keys(sa['writes']))} (wrong order or wrong block)")
+                    if want.get("sub_shift") and sa["has_shift"] is not want["sub_shift"][i_]:
+                        probs.append(f"sub-analysis {i_}: has_shift is {sa['has_shift']}")
+            lo, hi = a["min_accessed"], a["max_accessed"]
+            out = sorted(c_ for c_ in want["cells"] if not lo <= c_ <= hi)
+            if out:
+                wprobs.append(f"cells {out} are named by the block but lie outside the window [{lo}, {hi}]")
+        except (_Un, _Re, KeyError, TypeError, IndexError, AttributeError) as u_:
+            probs.append(f"cannot be analysed (fail closed): {u_}")
+        res.evaluations += 1
+        res.check(not probs, rule, f"{BC}|analyze|eval|{tag}", w, f"Analysis::analyze on {tag}: " + "; ".join(probs[:2]))
+        if not any(p_.startswith("cannot") for p_ in probs):
+            res.check(not wprobs, wrule, f"{BC}|analyze|eval|{tag}", w, f"Analysis::analyze on {tag}: " + "; ".join(wprobs[:2]))
